@@ -1,0 +1,14 @@
+//go:build verif
+
+package renderer
+
+// VerifHook, when set, is called at instrumentation points of this package.
+// It exists only in builds with the 'verif' tag and is used by external
+// runtime monitors to record events and to inject scheduling yields.
+var VerifHook func(site string)
+
+func verifPoint(site string) {
+	if h := VerifHook; h != nil {
+		h(site)
+	}
+}
